@@ -638,3 +638,36 @@ M("C17", "table-zips-two-listings", "results.py", "        out = []\n        for
 M("C12", "vdc-float-log-digits", "doe.py", "    sequence = []\n    for i in range(n_sample):\n        n_th_number, denom = 0., 1.\n        while i > 0:\n            i, remainder = divmod(i, base)\n            denom *= base\n            n_th_number += remainder / denom\n        sequence.append(n_th_number)\n\n    return sequence", "    idx = np.arange(n_sample)\n    out = np.zeros(n_sample)\n    denom = 1.0\n    for _ in range(int(np.log(max(n_sample - 1, 1)) / np.log(base)) + 1):\n        idx, remainder = np.divmod(idx, base)\n        denom *= base\n        out += remainder / denom\n    return list(out)")
 M("C13", "gsd-roll-without-axis", "doe.py", "            for constant, other_A in zip(first_row,\n                                         np.array(A_matrices)[latin_square[i]]):", "            for constant, other_A in zip(first_row, np.roll(np.array(A_matrices), -i)):")
 M("C20", "hash-cached", "individual.py", "        return hash(tuple(self.vector))", "        if getattr(self, '_hash', None) is None:\n            self._hash = hash(tuple(self.vector))\n        return self._hash")
+
+# work-list ranking: last-in-first-out is a recognised contradiction, first-in-first-out ranks correctly (not provable here: quiet)
+_WL_OLD = """        while len(pareto_front[front_number - 1]) > 0:
+            front_number += 1
+            pareto_front.append([])
+            for p in pareto_front[front_number - 2]:
+                for individual_id in p.features['dominate']:
+                    q = self.individual(individuals, individual_id)
+                    q.features['domination_counter'] -= 1
+                    if q.features['domination_counter'] == 0 and q.features['front_number'] is None:
+                        q.features['front_number'] = front_number
+                        pareto_front[front_number - 1].append(q)
+
+        if len(pareto_front[front_number - 1]) == 0:
+"""
+_WL_NEW = """        ranked = list(pareto_front[0])
+        while len(ranked) > 0:
+            p = ranked.pop(%s)
+            front_number = p.features['front_number'] + 1
+            if len(pareto_front) < front_number:
+                pareto_front.append([])
+            for individual_id in p.features['dominate']:
+                q = self.individual(individuals, individual_id)
+                q.features['domination_counter'] -= 1
+                if q.features['domination_counter'] == 0 and q.features['front_number'] is None:
+                    q.features['front_number'] = front_number
+                    pareto_front[front_number - 1].append(q)
+                    ranked.append(q)
+
+        if len(pareto_front[-1]) == 0:
+"""
+M("C02", "worklist-lifo", "operators.py", _WL_OLD, _WL_NEW % "")
+M("C02", "worklist-fifo-quiet", "operators.py", _WL_OLD, _WL_NEW % "0", expect="Q")
